@@ -18,6 +18,24 @@ CHECKS = {
          "the TLA+ Ieee module (validated against the Rust primitives on every replayed lane). Not decided: operand "
          "pairs whose exact result needs >31-bit integers (skipped, counted), exp/powf values, NEON/wasm32."),
    ref="5 (C01), 2.1"),
+ "C16": dict(
+   technique="TLA+ token machine (swizzles as index maps derived from the method-name letters), complete TLC enumeration of all names, bit-exact replay on every type",
+   text=("The specification derives each getter/setter from the letters of its name; TLC enumerates all 28+117+336 getters and 6+36 "
+         "setters (and proves read-after-write, write-what-was-read = identity, composition, and the name counts); every case is "
+         "replayed bit-for-bit on all 34 swizzle-implementing types in sse2 (debug+release), scalar-math and core-simd builds with "
+         "NaN payloads, -0, equal lanes, and for Vec3A six hidden-lane contents; the result type is checked too. Exhaustive up to "
+         "data independence of pure data movement."),
+   note="Trusted: TLC, the token palette (harness/src/tv.rs), generated name dispatch (harness/gen_swz.py). NEON/wasm32 not executable here.",
+   ref="5 (C16)"),
+ "C17": dict(
+   technique="TLA+ register machine over 3 tokens: complete BFS of every (register, access-path action) transition plus TLC-simulated length-32 histories, replayed on the real types",
+   text=("One register of n lanes; constructors, constants, four write paths and ten read paths are the actions. TLC checks the action "
+         "properties WriteChangesOnlyThatLane and ReadsArePure and explores all 117 registers x all actions (complete), then simulates "
+         "histories of 32 interleaved reads and writes; each behaviour is executed on all 34 vector types, Quat and DQuat in sse2 "
+         "(debug+release), scalar-math and core-simd builds, projecting the whole register after every step and comparing every read "
+         "path's observation (including Debug/Display text built from the primitive formatter) bit-for-bit."),
+   note="Trusted: TLC, token palette, the per-type access-path table (harness/src/acc.rs). Data independence assumed for values outside the palette.",
+   ref="5 (C17)"),
 }
 
 PENDING = {}
